@@ -624,6 +624,7 @@ def c02(res, rng, tier, replay=None):
     res.rule = ('random trees x globs (unrooted, with literal / invariant prefixes, tree wildcards, classes, alternations; ExprGen + a fixed pool); '
                 'non-trivial = distinct (tree, glob); tie: yielded sequence impl vs model machine with the model component programs; oracle: independent '
                 'read-back of the tree (os.scandir) filtered with is_match on the base-relative path, compared with the walk as sets, each once')
+    W.check_orbit_nosep(res, 'C02')
     sb = Sandbox('C02')
     try:
         cases, nodes = glob_cases(sb, rng, ntrees // 2, 6)
@@ -634,6 +635,11 @@ def c02(res, rng, tier, replay=None):
         for (c, pi, pm, a, b), (node, e) in zip(results, nodes):
             pairs.append((e, [p for p, _ in preorder(node)]))
         bits = match_bits(pairs)
+        # the objects of the C02 theorems are the code's objects: token tree, complete program and component programs of every walked glob
+        import props_pattern as PP
+        items = PP.stage_globs(sorted(set(e for _, e in nodes)))
+        PP.tie_fields(res, items, ['tree', 're', 'comps', 'empty'], 'C02 programs')
+        res.count('globs whose programs were compared', len(items))
         kfs = {k['class']: k for k in W.known_findings('C02')}
         for (c, pi, pm, a, b), (node, e), bs in zip(results, nodes, bits):
             res.evaluations += 1
